@@ -2,6 +2,11 @@
 EXTENDS TileQuery, TraceIO
 Verdict(e) == IF e.outcome = "skip_destination_outside_the_valid_area_of_its_crs" THEN "skip"
               ELSE IF e.outcome # "ok" THEN "reject:raised_" \o e.outcome
+              ELSE IF e.op = "rquery" THEN
+                   (IF \E k \in DOMAIN e.need : e.need[k] \notin {e.out[j] : j \in DOMAIN e.out} THEN "reject:intersecting_tile_not_returned"
+                    ELSE IF Len(e.out) # Cardinality({e.out[j] : j \in DOMAIN e.out}) THEN "reject:tile_returned_twice"
+                    ELSE IF \E j \in DOMAIN e.out : e.out[j] \in {e.far[k] : k \in DOMAIN e.far} THEN "reject:returned_tile_is_far_from_the_query"
+                    ELSE "ok")
               ELSE LET v == IF e.op = "query" THEN QueryV(e) ELSE IF e.op = "rpair" THEN RGraphV(e) ELSE GraphV(e) IN IF v # "ok" THEN "reject:" \o v ELSE "ok"
 VARIABLE l
 Init == l = 1
